@@ -1,6 +1,8 @@
 """C01/C02 driver: records solve_sat executions (hook events + return) as traces for CdclTrace.tla."""
 import random
 
+from drivers.labels import cont_mode, seq2
+
 
 def run_sat(case):
     from solvor import _verif
@@ -11,7 +13,7 @@ def run_sat(case):
         pool = {}
         call_clauses = [pool.setdefault(tuple(c), list(c)) for c in clauses]
     else:
-        call_clauses = [list(c) for c in clauses]
+        call_clauses = seq2(clauses, cont_mode(case))
     tr = {"clauses": clauses, "assumptions": case.get("assumptions", []), "limit": case.get("limit", 1),
           "max_conflicts": case.get("max_conflicts", 100000), "max_restarts": case.get("max_restarts", 10000),
           "luby_factor": case.get("luby_factor", 100), "planted": case.get("planted", []), "input": case}
